@@ -8,7 +8,7 @@ EIGEN_HEAD = re.compile(r"VERIF-EIGEN-ASSERT (\S+?):(\d+) (.*)")
 MARK = re.compile(r"^VH-BEGIN (\d+)")
 TSAN_HEAD = re.compile(r"WARNING: ThreadSanitizer: ([a-z\- ]+?)(?: \(pid=\d+\))?\s*$")
 TSAN_FRAME = re.compile(r"^\s*#(\d+) (.+?) (/[^\s:]+|<null>)(?::\d+)*(?: \(.*\))?\s*$")
-VG_HEAD = re.compile(r"^==\d+== (Invalid (?:read|write) of size \d+|Conditional jump or move depends on uninitialised value\(s\)|Use of uninitialised value of size \d+|Invalid free.*|Mismatched free.*|Source and destination overlap.*)")
+VG_HEAD = re.compile(r"^==\d+== (Invalid (?:read|write) of size \d+|Conditional jump or move depends on uninitialised value\(s\)|Use of uninitialised value of size \d+|Invalid free.*|Mismatched free.*|Syscall param .* uninitialised.*|Source and destination overlap.*)")
 VG_FRAME = re.compile(r"^==\d+==\s+(?:at|by) 0x[0-9A-F]+: (.+?) \((?:in )?([^)]*)\)")
 
 
@@ -81,6 +81,7 @@ def parse_text(txt):
         if not head:
             i += 1; continue
         frames, block = [], [l]
+        alloc_frames, in_alloc = [], False     # memcheck: frames of the "Address ... alloc'd" section (who owns the storage)
         j = i + 1
         while j < len(lines) and j < i + (200 if head[0] == "tsan" else 80):
             fm = FRAME.match(lines[j])
@@ -89,12 +90,14 @@ def parse_text(txt):
             if head[0] == "tsan" and lines[j].startswith("=================="):
                 if frames:
                     break
+            if head[0] == "memcheck" and re.match(r"^==\d+==\s+Address 0x", lines[j]):
+                in_alloc = True; block.append(lines[j]); j += 1; continue
             if tm and not fm:
                 frames.append((tm.group(2), tm.group(3))); block.append(lines[j])
             elif fm:
                 frames.append((fm.group(2), fm.group(3) or "")); block.append(lines[j])
             elif vm:
-                frames.append((vm.group(1), vm.group(2))); block.append(lines[j])
+                (alloc_frames if in_alloc else frames).append((vm.group(1), vm.group(2))); block.append(lines[j])
             elif head[0] != "tsan" and frames and (lines[j].strip() == "" or lines[j].startswith("==") and "==    " not in lines[j] and not VG_FRAME.match(lines[j])):
                 break
             elif head[0] == "tsan" and lines[j].startswith("SUMMARY: ThreadSanitizer"):
@@ -106,6 +109,12 @@ def parse_text(txt):
                 block.append(lines[j])
             j += 1
         owner, site = classify(frames)
+        if head[0] == "memcheck" and head[1].startswith("syscall-param"):
+            # bytes handed to a system call (an MPI send): MPI's own headers / padding are uninitialised all the time; the report concerns the
+            # library only if the storage itself was allocated on behalf of library code
+            aowner, _ = classify(alloc_frames)
+            if aowner == "external":
+                owner = "external"
         if head[0] == "ubsan" and not frames:
             # no stack trace printed: fall back to the source location
             loc = head[2]
